@@ -272,7 +272,7 @@ fn siblings<A: Backend, B: Backend>(opts: &Opts, rep: &mut Report) {
 /// backends that both accept the encoding agree on it.
 fn odd_encodings<B: Backend, P: Prims>(opts: &Opts, rep: &mut Report, collect: &mut Vec<(String, Vec<u8>, [u8; 33])>) {
     use crate::monitors::c04::{Target, degenerate_keys};
-    if !opts.wants_backend(B::NAME) || B::VER == 1 || (opts.shard != 6 % opts.nshards && opts.only.is_none()) {
+    if !opts.wants_backend(B::NAME) || (opts.shard != 6 % opts.nshards && opts.only.is_none()) {
         return;
     }
     for (t, label, raw) in degenerate_keys::<B>() {
@@ -285,6 +285,26 @@ fn odd_encodings<B: Backend, P: Prims>(opts: &Opts, rep: &mut Report, collect: &
             _ => continue,
         };
         let Some(id) = id else { continue };
+        // v1 keys may be supplied as PEM or non-canonical DER: the id is over the canonical PKCS#1 / SPKI DER
+        let raw = if B::VER == 1 {
+            match t {
+                Target::KeySecret | Target::KeyPkeSecret => match rsapool::canonical_secret(&raw) {
+                    Some(c) => c,
+                    None => continue,
+                },
+                Target::KeyPublic | Target::KeyPkePublic => {
+                    use rsa::pkcs8::{DecodePublicKey, EncodePublicKey};
+                    let k = rsa::RsaPublicKey::from_public_key_der(&raw).ok().or_else(|| std::str::from_utf8(&raw).ok().and_then(|p| rsa::RsaPublicKey::from_public_key_pem(p).ok()));
+                    match k.and_then(|k| k.to_public_key_der().ok()) {
+                        Some(d) => d.into_vec(),
+                        None => continue,
+                    }
+                }
+                _ => raw,
+            }
+        } else {
+            raw
+        };
         let supplied = format!("k{}.{keykind}.{}", B::VER, crate::b64::encode(&raw));
         let want = r::key_id::<P>(B::VER, kind, &supplied);
         if id != want {
@@ -332,6 +352,8 @@ pub fn run(opts: &Opts) {
         siblings::<V3, V3Lc>(opts, &mut rep);
         siblings::<V4, V4Na>(opts, &mut rep);
         let (mut o2, mut o3, mut o4, mut o3lc, mut o4na) = (vec![], vec![], vec![], vec![], vec![]);
+        let mut o1 = vec![];
+        odd_encodings::<V1, Ffi>(opts, &mut rep, &mut o1);
         odd_encodings::<V2, Ffi>(opts, &mut rep, &mut o2);
         odd_encodings::<V3, Ffi>(opts, &mut rep, &mut o3);
         odd_encodings::<V4, Ffi>(opts, &mut rep, &mut o4);
@@ -349,7 +371,7 @@ pub fn run(opts: &Opts) {
     }
     rep.set(
         "rule",
-        json!("thousands of generated keys per backend (tens of RSA keys): lid/sid/pid compared with the reference digest (other primitive family) of 'kN.xid.' || canonical PASERK text, checked stable across clone / text / raw round-trips (v1: PEM vs DER), pairwise distinct for related keys (incl. a local key whose bytes equal the public key), text round-trip; id strings of every decoded length 0..70; 10^4 id pairs (equal, last-bit, one-byte, random) for Eq/Ord/Hash against the bytes; sibling backends compared; keys supplied in unusual accepted encodings (non-canonical Ed25519 y, x = 0 with sign bit, small order, boundary scalars): id = digest of the text as supplied, equal across siblings; distinct = distinct keys / strings / pairs"),
+        json!("thousands of generated keys per backend (tens of RSA keys): lid/sid/pid compared with the reference digest (other primitive family) of 'kN.xid.' || canonical PASERK text, checked stable across clone / text / raw round-trips (v1: PEM vs DER), pairwise distinct for related keys (incl. a local key whose bytes equal the public key), text round-trip; id strings of every decoded length 0..70; 10^4 id pairs (equal, last-bit, one-byte, random) for Eq/Ord/Hash against the bytes; sibling backends compared; keys supplied in unusual accepted encodings (non-canonical Ed25519 y, x = 0 with sign bit, small order, boundary scalars): id = digest of the text as supplied (v1: of the canonical DER when PEM or a DER with other CRT integers is supplied), equal across siblings; distinct = distinct keys / strings / pairs"),
     );
     rep.finish(opts);
 }
